@@ -4,4 +4,4 @@
 set -e
 cd "$(dirname "${BASH_SOURCE[0]}")"
 export GOFLAGS=-mod=mod GOPROXY=off GOSUMDB=off GOTOOLCHAIN=local
-./check --build-only
+./check --build-only --with-race
